@@ -478,6 +478,18 @@ class SpaceTranslator(ParentTranslator):
             if k[0] != '_':
                 lines.append(k + ' = None')
 
+        # Child spaces and ItemSpace parameters (own and enclosing)
+        # are names of the space as well
+        names = [k for k in space.spaces if k[0] != '_']
+        parent = space
+        while isinstance(parent, BaseSpace):
+            if parent.formula:
+                names.extend(parent.parameters)
+            parent = parent.parent
+        for k in names:
+            if k not in space.refs:
+                lines.append(k + ' = None')
+
         for k, v in space.cells.items():
             src = v.formula.source
             if is_lambda_expr(src):
